@@ -164,6 +164,8 @@ def analyse(ctx):
                     c.symtab_marks.add(name)
             if 'Option<Symbol>' in f['output'].replace(' ', '') and name != 'resolve':
                 c.symtab_resolve.add(name)
+            if name == 'define':
+                c.symtab_define_output = f['output'].replace(' ', '')
         from rules import tables
         pt = tables.pratt_tables(ctx)
         # what the parser can put into the operator fields (R07.6 checks these sets)
